@@ -11,7 +11,7 @@ PROP = {'areas': [{'area': 'engine',
             'extra': ['100'],
             'only_prop': 'C08',
             'quick': 12000,
-            'thorough': 1000000,
+            'thorough': 2000000,
             'tie_fields': ['nst', 'out', 'pwc', 'cur', 'hq', 'uq', 'rq', 'tmo', 'pingto', 'nping', 'connackto', 'st']}],
  'coq_target': 'Properties/C08.vo',
  'modelled': 'protocol.rs ProtocolState: handle_user_event, handle_network_event (opened / closed / incoming data / write completion), service '
